@@ -24,6 +24,7 @@ def ckd_priv_data(k, px, py, i, hardened):
 
 @contract(B + "subkey_secret_exponent_chain_code_pair")
 class ckd_priv:
+    slow_canaries = True
     props = ["C09"]
     sig = dict(generator=GEN, secret_exponent=Int(1), chain_code_bytes=Bytes(n=32), i=Int(0, 2 ** 32 - 1), is_hardened=Bool(),
                public_pair=Tup(Int(0), Int(0)))
